@@ -8,6 +8,7 @@ import (
 	"strings"
 
 	hpke "github.com/cisco/go-hpke"
+	"github.com/cloudflare/pat-go/quicwire"
 	"github.com/cloudflare/pat-go/tokens"
 	"github.com/cloudflare/pat-go/tokens/batched"
 	"github.com/cloudflare/pat-go/tokens/type1"
@@ -261,6 +262,17 @@ func init() {
 	replayers["c04.obj5"] = func(c *Ctx, a []string) string {
 		r := &type5.BatchedPrivateTokenRequest{}
 		return objOps(a, r.Marshal, r.Unmarshal, func() string { return fmt.Sprintf("%d %s", r.TokenKeyID, hxList(r.BlindedReq)) })
+	}
+	replayers["c04.objB"] = func(c *Ctx, a []string) string {
+		r := &batched.BatchedTokenRequest{}
+		// (Marshal has a value receiver: a method value would bind a copy of the object as it is now)
+		return objOps(a, func() []byte { return r.Marshal() }, r.Unmarshal, func() string {
+			var ss []string
+			for _, q := range r.VerifRequests() {
+				ss = append(ss, fmtReqWD(q))
+			}
+			return strings.Join(ss, ",")
+		})
 	}
 	replayers["c04.objI"] = func(c *Ctx, a []string) string {
 		r := &type3.InnerTokenRequest{}
@@ -558,8 +570,57 @@ func runC04(c *Ctx) {
 		}
 	}
 
+	// ---- type separation, every one of the 65535 other tags (decoders only; the model side is the theorem) ----
+	sweep := []struct {
+		name string
+		enc  []byte
+		dec  func([]byte) bool
+	}{}
+	for _, k := range kinds {
+		if k.name == "inner" {
+			continue
+		}
+		k := k
+		sweep = append(sweep, struct {
+			name string
+			enc  []byte
+			dec  func([]byte) bool
+		}{k.name, k.mk(), func(b []byte) bool { return k.dec(b) != nil }})
+	}
+	// (token decoders read the type without checking it — by design; the clause is about request decoders)
+	{
+		one, _ := batched.NewBasicClient().CreateTokenRequest([]tokens.TokenRequestWithDetails{&type1.BasicPrivateTokenRequest{TokenKeyID: 7, BlindedReq: r.Bytes(49)}})
+		enc := one.Marshal()
+		_, n := quicwire.ConsumeVarint(enc)
+		// rotate so that the element's tag is in front for the sweep, and back before decoding
+		sweep = append(sweep, struct {
+			name string
+			enc  []byte
+			dec  func([]byte) bool
+		}{"batch-element", append(append([]byte{}, enc[n:n+2]...), append(append([]byte{}, enc[:n]...), enc[n+2:]...)...), func(b []byte) bool {
+			m := append(append(append([]byte{}, b[2:2+n]...), b[:2]...), b[2+n:]...)
+			return (&batched.BatchedTokenRequest{}).Unmarshal(m)
+		}})
+	}
+	for _, sw := range sweep {
+		if !c.DirectOK(sw.dec(sw.enc), sw.name+": the honest encoding used for the tag sweep is not accepted", map[string]any{"enc": hx(sw.enc)}) {
+			continue
+		}
+		own := uint16(sw.enc[0])<<8 | uint16(sw.enc[1])
+		for t := 0; t < 65536; t++ {
+			if uint16(t) == own {
+				continue
+			}
+			m := append([]byte{byte(t >> 8), byte(t)}, sw.enc[2:]...)
+			if sw.dec(m) {
+				c.Direct(false, sw.name+" accepted a message tagged with another type", map[string]any{"tag": t, "b": hx(m)})
+			}
+		}
+		c.hist["tag-sweep:"+sw.name] += 65535
+	}
+
 	// ---- object reuse histories ----
-	objKinds := []struct{ op, name string }{{"c04.obj1", "req1"}, {"c04.obj2", "req2"}, {"c04.obj3", "req3"}, {"c04.obj5", "req5"}, {"c04.objI", "inner"}}
+	objKinds := []struct{ op, name string }{{"c04.obj1", "req1"}, {"c04.obj2", "req2"}, {"c04.obj3", "req3"}, {"c04.obj5", "req5"}, {"c04.objI", "inner"}, {"c04.objB", "batch"}}
 	kindByName := map[string]reqKind{}
 	for _, k := range kinds {
 		kindByName[k.name] = k
@@ -569,6 +630,15 @@ func runC04(c *Ctx) {
 	for i := 0; i < c.Pick(150, 3000); i++ {
 		for _, ok := range objKinds {
 			k := kindByName[ok.name]
+			if ok.name == "batch" {
+				k = reqKind{name: "batch", dec: func(b []byte) []byte {
+					q := &batched.BatchedTokenRequest{}
+					if !q.Unmarshal(b) {
+						return nil
+					}
+					return q.Marshal()
+				}}
+			}
 			// alphabet: m, u:good A, u:good B, u:bad (truncated / wrong type / partial)
 			mk := func() []byte {
 				// build a valid encoding without journalling an op
@@ -581,6 +651,17 @@ func runC04(c *Ctx) {
 					return (&type3.RateLimitedTokenRequest{RequestKey: r.Bytes(49), NameKeyID: r.Bytes(32), EncryptedTokenRequest: r.Bytes(1 + r.IntN(60)), Signature: r.Bytes(96)}).Marshal()
 				case "inner":
 					return type3.VerifNewInnerTokenRequest(byte(r.Uint32()), r.Bytes(256), r.Bytes(32)).Marshal()
+				case "batch":
+					var reqs []tokens.TokenRequestWithDetails
+					for j := 1 + r.IntN(3); j > 0; j-- {
+						if r.Bool() {
+							reqs = append(reqs, &type1.BasicPrivateTokenRequest{TokenKeyID: byte(r.Uint32()), BlindedReq: r.Bytes(49)})
+						} else {
+							reqs = append(reqs, &type2.BasicPublicTokenRequest{TokenKeyID: byte(r.Uint32()), BlindedReq: r.Bytes(256)})
+						}
+					}
+					br, _ := batched.NewBasicClient().CreateTokenRequest(reqs)
+					return br.Marshal()
 				default:
 					var els [][]byte
 					for j := r.IntN(3); j > 0; j-- {
